@@ -165,7 +165,7 @@ def deep_equal(seq1: Iterable[Any],
                             return False
                         elif value1 != value2:
                             return False
-                    elif value1 != value2:
+                    elif not is_comparable(value1, value2) or value1 != value2:
                         return False
                 except TypeError:
                     return False
